@@ -10,13 +10,65 @@ COQ_DEPS = []
 PROFILES = ["debug"]
 CORR_IMPORT = "From RlibV Require Import C01.Model C01.Items C01.Spec C01.Corr.\nOpen Scope Z_scope."
 AUDIT_IMPORT = ("From Coq Require Import ZArith List Bool Arith.\nImport ListNotations.\n"
-                "From RlibV Require Import C01.Model C01.Items C01.Spec C01.Corr.\n")
+                "From RlibV Require Import C01.Model C01.Items C01.Spec C01.Laws C01.Corr C01.ProofsCore C01.ProofsTree "
+                "C01.ProofsItems C01.ProofsTop C01.ProofsMorph C01.Properties.\nOpen Scope nat_scope.\n")
 CASE_TYPE = "case"
 EXPLAIN = "explain"
 AXIOM_ALLOW = []
 SHARD = 700
 SEARCH_MAX = 1500
-THEOREMS = []
+THEOREMS = [
+    ('c01_rep_length',
+     'forall (T M V : Type) (obs : T -> V) (vmerge : V -> V -> V) (act : M -> V -> V) (Pending : T -> list M -> Prop) (x : T) (s : shape T) (vl vr : nat) (vs : list V), Rep obs vmerge act Pending x s vl vr vs -> length vs = vr - vl + 1 /\\ vl <= vr'),
+    ('c01_rep_top',
+     'forall (T M V : Type) (obs : T -> V) (vmerge : V -> V -> V) (act : M -> V -> V) (Pending : T -> list M -> Prop) (x : T) (s : shape T) (vl vr : nat) (vs : list V), Rep obs vmerge act Pending x s vl vr vs -> forall d : V, obs x = vfold vmerge d vs'),
+    ('c01_rep_leaf_iff',
+     'forall (T M V : Type) (obs : T -> V) (vmerge : V -> V -> V) (act : M -> V -> V) (Pending : T -> list M -> Prop) (x : T) (s : shape T) (vl vr : nat) (vs : list V), Rep obs vmerge act Pending x s vl vr vs -> (s = L <-> vl = vr)'),
+    ('c01_rep_push',
+     "forall (T M V : Type) (merge : T -> T -> T) (update : T -> T -> T -> T) (modify : T -> M -> T) (push : T -> T -> T -> T * T * T) (obs : T -> V) (vmerge : V -> V -> V) (act : M -> V -> V) (Pending : T -> list M -> Prop), lawful merge update modify push obs vmerge act Pending -> forall (x : T) (lt : shape T) (xl xr : T) (rt : shape T) (vl vr : nat) (vs : list V) (x1 xl1 xr1 : T), Rep obs vmerge act Pending x (N lt xl xr rt) vl vr vs -> push x xl xr = (x1, xl1, xr1) -> exists ls rs, vs = ls ++ rs /\\ vl < vr /\\ Rep obs vmerge act Pending xl1 lt vl ((vl + vr) / 2) ls /\\ Rep obs vmerge act Pending xr1 rt ((vl + vr) / 2 + 1) vr rs /\\ Pending x1 [] /\\ obs x1 = obs x /\\ (forall xl' lt' xr' rt', Rep obs vmerge act Pending xl' lt' vl ((vl + vr) / 2) ls -> Rep obs vmerge act Pending xr' rt' ((vl + vr) / 2 + 1) vr rs -> Rep obs vmerge act Pending x1 (N lt' xl' xr' rt') vl vr (ls ++ rs))"),
+    ('c01_ask_correct',
+     "forall (T M V : Type) (merge : T -> T -> T) (update : T -> T -> T -> T) (modify : T -> M -> T) (push : T -> T -> T -> T * T * T) (obs : T -> V) (vmerge : V -> V -> V) (act : M -> V -> V) (Pending : T -> list M -> Prop), lawful merge update modify push obs vmerge act Pending -> forall (s : shape T) (x : T) (vl vr : nat) (vs : list V) (l r : nat) (x' : T) (s' : shape T) (res : T), Rep obs vmerge act Pending x s vl vr vs -> vl <= l -> l <= r -> r <= vr -> ask_t merge push x s l r vl vr = (x', s', res) -> Rep obs vmerge act Pending x' s' vl vr vs /\\ (forall d : V, obs res = vfold vmerge d (seg vs vl l r))"),
+    ('c01_modify_correct',
+     "forall (T M V : Type) (merge : T -> T -> T) (update : T -> T -> T -> T) (modify : T -> M -> T) (push : T -> T -> T -> T * T * T) (obs : T -> V) (vmerge : V -> V -> V) (act : M -> V -> V) (Pending : T -> list M -> Prop), lawful merge update modify push obs vmerge act Pending -> forall (s : shape T) (x : T) (vl vr : nat) (vs : list V) (l r : nat) (md : M) (x' : T) (s' : shape T), Rep obs vmerge act Pending x s vl vr vs -> vl <= l -> l <= r -> r <= vr -> modify_t update modify push x s md l r vl vr = (x', s') -> Rep obs vmerge act Pending x' s' vl vr (upd_seg (act md) vs vl l r)"),
+    ('c01_set_correct',
+     "forall (T M V : Type) (merge : T -> T -> T) (update : T -> T -> T -> T) (modify : T -> M -> T) (push : T -> T -> T -> T * T * T) (obs : T -> V) (vmerge : V -> V -> V) (act : M -> V -> V) (Pending : T -> list M -> Prop), lawful merge update modify push obs vmerge act Pending -> forall (s : shape T) (x : T) (vl vr : nat) (vs : list V) (i : nat) (v x' : T) (s' : shape T), Rep obs vmerge act Pending x s vl vr vs -> vl <= i -> i <= vr -> set_t update push x s i v vl vr = (x', s') -> Rep obs vmerge act Pending x' s' vl vr (upd_at vs (i - vl) (obs v))"),
+    ('c01_build_correct',
+     'forall (T M V : Type) (merge : T -> T -> T) (update : T -> T -> T -> T) (modify : T -> M -> T) (push : T -> T -> T -> T * T * T) (obs : T -> V) (vmerge : V -> V -> V) (act : M -> V -> V) (Pending : T -> list M -> Prop), lawful merge update modify push obs vmerge act Pending -> forall dflt : T, (forall (n : nat) (v : T), n <> 0 -> exists t, new update n v = Some t /\\ tn t = n /\\ RepT obs vmerge act Pending t (repeat (obs v) n)) /\\ (forall xs : list T, xs <> [] -> exists t, from_slice update xs = Some t /\\ tn t = length xs /\\ RepT obs vmerge act Pending t (map obs xs)) /\\ (forall xs : list T, xs <> [] -> exists t, from_iter update dflt xs = Some t /\\ tn t = length xs /\\ RepT obs vmerge act Pending t (map obs xs))'),
+    ('c01_ask_tree_correct',
+     "forall (T M V : Type) (merge : T -> T -> T) (update : T -> T -> T -> T) (modify : T -> M -> T) (push : T -> T -> T -> T * T * T) (obs : T -> V) (vmerge : V -> V -> V) (act : M -> V -> V) (Pending : T -> list M -> Prop), lawful merge update modify push obs vmerge act Pending -> forall (dflt : T) (t : tree T) (vs : list V) (l r : nat), RepT obs vmerge act Pending t vs -> l <= r -> r < tn t -> exists t' x, ask merge push t l r = Some (t', x) /\\ tn t' = tn t /\\ RepT obs vmerge act Pending t' vs /\\ obs x = range vmerge (obs dflt) vs l r"),
+    ('c01_debug_correct',
+     "forall (T M V : Type) (merge : T -> T -> T) (update : T -> T -> T -> T) (modify : T -> M -> T) (push : T -> T -> T -> T * T * T) (obs : T -> V) (vmerge : V -> V -> V) (act : M -> V -> V) (Pending : T -> list M -> Prop), lawful merge update modify push obs vmerge act Pending -> forall (dflt : T) (t : tree T) (vs : list V) (t' : tree T) (xs : list T), RepT obs vmerge act Pending t vs -> debug merge push t = (t', xs) -> tn t' = tn t /\\ RepT obs vmerge act Pending t' vs /\\ map obs xs = vs"),
+    ('c01_history',
+     'forall (T M V : Type) (merge : T -> T -> T) (update : T -> T -> T -> T) (modify : T -> M -> T) (push : T -> T -> T -> T * T * T) (obs : T -> V) (vmerge : V -> V -> V) (act : M -> V -> V) (Pending : T -> list M -> Prop), lawful merge update modify push obs vmerge act Pending -> forall (P : Type) (dflt : T) (pv : P -> V -> bool) (ops : list (op T M P)), Forall2 (out_match obs vmerge pv (obs dflt)) (run merge update modify push (fun p x => pv p (obs x)) dflt None ops) (spec_run obs vmerge act (obs dflt) None ops)'),
+    ('c01_kit_history',
+     'forall (T M V : Type) (k : kit T M V) (Pending : T -> list M -> Prop), kit_lawful k Pending -> forall ops : list (op T M pred), Forall2 (out_match (k_obs k) (k_vmerge k) (k_pv k) (k_obs k (k_dflt k))) (model_outs k ops) (spec_outs k ops)'),
+    ('c01_min_lawful',
+     'kit_lawful kit_min no_pending'),
+    ('c01_max_lawful',
+     'kit_lawful kit_max no_pending'),
+    ('c01_sum_lawful',
+     'kit_lawful kit_sum no_pending'),
+    ('c01_minadd_lawful',
+     'kit_lawful kit_minadd va_pending'),
+    ('c01_maxadd_lawful',
+     'kit_lawful kit_maxadd va_pending'),
+    ('c01_sumadd_lawful',
+     'kit_lawful kit_sumadd sa_pending'),
+    ('c01_combinator_lawful',
+     'forall (T1 T2 M V1 V2 : Type) (a : kit T1 M V1) (b : kit T2 M V2) (PA : T1 -> list M -> Prop) (PB : T2 -> list M -> Prop), k_update a = upd_of (k_merge a) -> k_update b = upd_of (k_merge b) -> kit_lawful a PA -> kit_lawful b PB -> kit_lawful (kit_comb a b) (comb_pending PA PB)'),
+    ('c01_comb2_lawful',
+     'kit_lawful kit_comb2 (comb_pending va_pending va_pending)'),
+    ('c01_comb3_lawful',
+     'kit_lawful kit_comb3 (comb_pending (comb_pending va_pending va_pending) sa_pending)'),
+    ('c01_combinator_side_by_side',
+     'forall (U W M P : Type) (mu : U -> U -> U) (du : U -> M -> U) (pu : U -> U -> U -> U * U * U) (mw : W -> W -> W) (dw : W -> M -> W) (pw : W -> W -> W -> W * W * W) (interp : P -> U * W -> bool) (iu : P -> U -> bool) (iw : P -> W -> bool) (d0 : U) (d1 : W) (ops : list (op (U * W) M P)), (Forall (search_ok fst interp iu) ops -> map (rmap fst) (run (comb_merge mu mw) (upd_of (comb_merge mu mw)) (comb_modify du dw) (comb_push pu pw) interp (d0, d1) None ops) = run mu (upd_of mu) du pu iu d0 None (map (omap fst) ops)) /\\ (Forall (search_ok snd interp iw) ops -> map (rmap snd) (run (comb_merge mu mw) (upd_of (comb_merge mu mw)) (comb_modify du dw) (comb_push pu pw) interp (d0, d1) None ops) = run mw (upd_of mw) dw pw iw d1 None (map (omap snd) ops))'),
+    ('c01_concat_lawful',
+     'kit_lawful kit_concat cc_pending'),
+    ('c01_affine_lawful',
+     'kit_lawful kit_affine af_pending'),
+    ('c01_model_check_spec_check',
+     'forall c : C01.Corr.case, C01.Corr.model_check c = true -> C01.Corr.spec_check c = true'),
+]
 RULE = ("histories on 10 item types (Min, Max, Sum, MinAdd, MaxAdd, SumAdd over i64, Combinator<MinAdd,MaxAdd>, "
         "Combinator<Combinator<MinAdd,MaxAdd>,SumAdd>, a user Concat item with non-commutative merge and Assign|Append "
         "modifiers, a user affine-tag item mod 998244353): sizes 1-40 (mostly <= 17 and 15,16,17,31,32,33), 1-60 operations, "
